@@ -22,3 +22,7 @@ pub mod iter;
 pub mod outcome;
 #[cfg(feature = "interruptible")]
 pub mod track;
+#[cfg(feature = "interruptible")]
+pub mod stream_int;
+#[cfg(feature = "graph_info")]
+pub mod ginfo;
